@@ -284,6 +284,12 @@ class Rng(Interp):
             self.eff(ctx, "seed_global", n, a0 if a0 is not None else NONE, env)
             env["$g"] = st
             return NONE
+        if d in ("numpy.random.set_state", "numpy.random.set_bit_generator"):
+            # the global stream is put back to an earlier position: whatever is drawn next repeats what was drawn after that
+            # position - for a call that did not ask for a seed this is "consecutive unseeded calls repeat"
+            self.eff(ctx, "seed_global", n, ("restored-state",), env)
+            env["$g"] = ("seeded-other", "restored state")
+            return NONE
         if d in api.GLOBAL_DRAWS or d.startswith("numpy.random.") and d.split(".")[-1] in api.GENERATOR_DRAWS:
             self.eff(ctx, "draw_global", n, d, env)
             return R
